@@ -4,7 +4,7 @@ import ast
 
 from .absint import Interp, Frame, AbsRaise, Inexact
 from .loader import AnalysisError, PKG
-from .values import (K, T, Obj, ListV, TupleV, DictV, FuncRef, ClassRef,
+from .values import (K, T, Obj, ListV, TupleV, DictV, SetV, FuncRef, ClassRef,
                      ExtRef, ModRef, PropertyV, StaticV, ClassMethodV)
 
 BUILTIN_NAMES = {
@@ -65,7 +65,55 @@ class World:
             notes.append('module body forked on an unknown condition')
         self.module_notes[full] = notes + interp.notes
         self.loading.discard(full)
+        self._snapshot(env)
         return env
+
+    # -- module-level mutable state --------------------------------------------
+    def _snapshot(self, env):
+        """Remember the contents of every container reachable from a module
+        environment as they are after import: calls that mutate them (caches,
+        registries) must not leak from one explored path into the next."""
+        seen = self.__dict__.setdefault('_snap_seen', set())
+        snaps = self.__dict__.setdefault('_snaps', [])
+
+        def walk(v, depth=0):
+            if id(v) in seen or depth > 6:
+                return
+            if isinstance(v, (ListV, SetV)):
+                seen.add(id(v))
+                snaps.append((v, 'items', list(v.items)))
+                for x in v.items:
+                    walk(x, depth + 1)
+            elif isinstance(v, DictV):
+                seen.add(id(v))
+                snaps.append((v, 'dict', (list(v.keys), list(v.vals))))
+                for x in v.vals:
+                    walk(x, depth + 1)
+            elif isinstance(v, TupleV):
+                seen.add(id(v))
+                for x in v.items:
+                    walk(x, depth + 1)
+            elif isinstance(v, ClassRef):
+                seen.add(id(v))
+                for x in list(v.attrs.values()):
+                    walk(x, depth + 1)
+        for v in list(env.values()):
+            walk(v)
+
+    def restore_mutables(self):
+        if self.loading:
+            return
+        for v, kind, saved in self.__dict__.get('_snaps', ()):
+            if kind == 'items':
+                if len(v.items) != len(saved) or any(
+                        a is not b for a, b in zip(v.items, saved)):
+                    v.items[:] = saved
+            else:
+                ks, vs = saved
+                if len(v.keys) != len(ks) or len(v.vals) != len(vs) or any(
+                        a is not b for a, b in zip(v.vals, vs)):
+                    v.keys[:] = ks
+                    v.vals[:] = vs
 
     def import_name(self, name):
         if name == PKG or name.startswith(PKG + '.'):
